@@ -15,7 +15,7 @@
 (declare-fun p8Key (Bytes) Bytes)
 (assert (forall ((v Int) (a OidV) (c Deep) (t Deep) (ic Deep) (pb Deep) (full Bytes) (k Bytes))
   (! (let ((b (der (deepS_S_cert_pkcs8 (deepv_Int v) (deepS_S_crypto_x509_pkix_AlgorithmIdentifier (deepOid a) (deepS_S_encoding_asn1_RawValue c t ic pb (deepBytes full))) (deepBytes k)))))
-       (=> (> (blen full) 0) (and (isP8Der b) (= (p8Ver b) v) (= (p8Alg b) a) (= (p8Params b) full) (= (p8Key b) k))))
+       (and (isP8Der b) (= (p8Ver b) v) (= (p8Alg b) a) (= (p8Key b) k) (=> (> (blen full) 0) (= (p8Params b) full))))
    :pattern ((deepS_S_cert_pkcs8 (deepv_Int v) (deepS_S_crypto_x509_pkix_AlgorithmIdentifier (deepOid a) (deepS_S_encoding_asn1_RawValue c t ic pb (deepBytes full))) (deepBytes k))))))
 ; RFC 5915 ECPrivateKey as Unmarshal into cert.ecPrivateKey sees it
 (declare-fun isEcDer (Bytes) Bool)
